@@ -6,7 +6,8 @@ Small-scope enumeration of match statements:
         sequence form ([], [p], [p, q], [p, *rest], [*rest, p], [*_, p], [p, *_, q], [p, *rest, q], (p, q)), mapping form
         ({}, {'k': p}, {'k': p, **rest}, {1: _, 'a': p}, {'k': p, 'j': q}, {NSK.S: p}), class form (Point(), Point(x=p),
         Point(x=p, y=q), Point(p), Point(p, q), Point(p, y=q), too many positionals, positional+keyword clash, int(p),
-        int(), str(), str(p), float(p), dict(), list(), DP(p, q) dataclass, __match_args__ of wrong type (list / non-str)),
+        int(), str(), str(p), float(p), dict(), list(), DP(p, q) dataclass, __match_args__ of wrong type (list / non-str),
+        1..n positional sub-patterns + one keyword naming each attribute for __match_args__ of length n = 1, 2, 3),
         or-pattern (all pairs of non-binding leaves, binding alternatives with equal name sets) and `as` pattern, with the
         sub-patterns p, q ranging over {0, 'ab', None, capture, wildcard, value, the or-pattern 0 | 1};
   * F2  guards (true / false / depending on a capture, logged) on a representative per form;
@@ -44,7 +45,7 @@ LEVEL_NOTE = ('Pattern depth 2 (3 in thorough for a reduced sub-pattern set), <=
               'not observed, nor is the count/order of __len__/__getitem__/get/keys calls (both unspecified by PEP 634).  Trusted: CPython 3.12 as reference, gcc.')
 
 PRELUDE = ('from props._g6_rt import (G, W31, Color, NSK, Point, SubPoint, OnlyX, BadMA, BadMA2, DP, PropPoint, MySeq, VirtSeq, '
-           'NotSeq, MyMap, EqLog)\n')
+           'NotSeq, MyMap, EqLog, MA1, MA2, MA3)\n')
 PER_MODULE = 120
 REACH = ['__Pyx_MatchCase_IsSequence', '__Pyx_MatchCase_IsMapping', '__Pyx_MatchCase_CheckMappingDuplicateKeys',
          '__Pyx_MatchCase_Mapping_ExtractDict', '__Pyx_MatchCase_Mapping_ExtractNonDict', '__Pyx_MatchCase_Mapping_Extract',
@@ -88,8 +89,23 @@ AS_COMPOSITE = [('[x, y] as z', ('x', 'y', 'z')), ("{'k': x} as z", ('x', 'z')),
                 ('[*rest] as z', ('rest', 'z')), ('str() as z', ('z',))]
 
 
+def patterns_posargs_plus_keyword():
+    """Class patterns mixing 1..len(__match_args__) positional sub-patterns with ONE keyword sub-pattern naming each of the
+    attributes x, y, z (duplicate of a positional one -> TypeError at match time, or not), for __match_args__ of length
+    1, 2 and 3; captures and a literal variant."""
+    out = []
+    names = ('a', 'b', 'c')
+    for n, cls in ((1, 'MA1'), (2, 'MA2'), (3, 'MA3')):
+        for npos in range(1, n + 1):
+            for attr in ('x', 'y', 'z'):
+                pos = ', '.join(names[:npos])
+                out.append(('%s(%s, %s=k)' % (cls, pos, attr), names[:npos] + ('k',)))
+                out.append(('%s(%s, %s=1)' % (cls, ', '.join(['_'] * npos), attr), ()))
+    return out
+
+
 def patterns_depth2():
-    out = list(LEAVES) + list(FIXED)
+    out = list(LEAVES) + list(FIXED) + patterns_posargs_plus_keyword()
     for fmt, ex in SEQ1 + MAP1 + CLS1:
         for p in subs('x'):
             out.append(_combine(fmt, p, extra=ex))
@@ -205,7 +221,7 @@ def family(tier):
 
 _SCLASS = {'num': 'i0 i1 im1 big T F f15 f0 c12 isub', 'none': 'N', 'str': 'sab se ssub', 'bytes': 'bab ba',
            'list': 'l0 l1 l2 l3 lab lnest', 'tuple': 't0 t1 t2 tn', 'otherseq': 'dq rng arr', 'abcseq': 'myseq virtseq',
-           'notseq': 'notseq', 'dict': 'd0 dk dkj d1a dab od dd', 'abcmap': 'mymap'}
+           'notseq': 'notseq', 'dict': 'd0 dk dkj d1a dab od dd', 'abcmap': 'mymap', 'matchargs': 'ma1 ma2 ma3'}
 _SUBJECT_CLASS = {k: c for c, ks in _SCLASS.items() for k in ks.split()}
 
 
